@@ -68,7 +68,11 @@ def rand_opts(rnd, p_each=0.35, allow_zero=False, with_threads=True):
     if rnd.random() < p_each:
         o["sample_size"] = rnd.choice([1, 2, 3] + ([0] if allow_zero else []))
     if with_threads and rnd.random() < p_each * 0.6:
-        o["threads"] = rnd.choice([[1], [2], [1, 2], [2, 1, 2], [0], [3, 1], [1, 1]])
+        # 0 stands for the available parallelism P: lists that name it twice (0 and P), put it
+        # before smaller counts, or repeat it must collapse and sort after the substitution
+        P = parallelism()
+        o["threads"] = rnd.choice([[1], [2], [1, 2], [2, 1, 2], [0], [3, 1], [1, 1],
+                                   [0, 1], [0, P], [P, 0, 2], [0, 0], [P, 1, P]])
     if rnd.random() < p_each * 0.4:
         o["min_time_ns"] = rnd.choice([0, 1, 2])
     if rnd.random() < p_each * 0.4:
@@ -290,7 +294,7 @@ def render_program(prog):
 
 # ------------------------------------------------------------ configurations
 
-def gen_config(rnd, prog, action=None, paths=None):
+def gen_config(rnd, prog, action=None, paths=None, nf=None):
     """A configuration: action, sort, ignore mode, filters, runner-level options
     and HOW each is set (CLI flag, DIVAN_* variable, builder call)."""
     action = action or rnd.choice(["bench", "bench", "test", "list", "list_terse"])
@@ -382,7 +386,7 @@ def gen_config(rnd, prog, action=None, paths=None):
             put("src_after" if how == "after" else "src_before", key, val)
     # filters
     paths = paths or []
-    nf = rnd.choice([0, 0, 0, 1, 1, 2, 3])
+    nf = rnd.choice([0, 0, 0, 1, 1, 2, 3]) if nf is None else nf
     exact = rnd.random() < 0.3
     if exact and nf:
         argv.append("--exact")
@@ -406,6 +410,15 @@ def gen_config(rnd, prog, action=None, paths=None):
         else:
             argv += ["--skip", text]
     return cfg
+
+
+def add_filter(cfg, inclusive, kind, text, ast=None):
+    """Appends one filter to a configuration (and its command line)."""
+    if kind == "regex" and ast is None:
+        ast = {"alts": [[{"t": "lit", "cp": cp(text)}]]}
+    cfg["filters"].append({"inclusive": inclusive, "kind": kind, "text": text, "text_cp": cp(text),
+                           "ast": ast if kind == "regex" else {"alts": []}})
+    cfg["argv"] += [text] if inclusive else ["--skip", text]
 
 
 SAFE = set("abcdefghijklmnopqrstuvwxyzABCDEFGHIJKLMNOPQRSTUVWXYZ0123456789:_ <>-")
